@@ -28,6 +28,20 @@ def tlsflow (impl : String) : P Verdict := do
   let k ← tok; let n ← nat; let _ ← bytes
   pure (ok s!"tlsflow:{k}:{if n > 1 then "split" else "single"}" impl)
 
+/-- `C01.reuse <tls|http> <cut>`: a new connection (SYN with a new ISN, then a whole well-formed message) on a
+4-tuple whose previous connection left an unfinished flow behind, on one analyzer instance `@@` on a fresh one.
+The statement ("after any such input the same instance still analyses a following well-formed input exactly as
+a fresh instance would") demands equality; the flow tables are keyed by the 4-tuple alone and ignore the SYN, so
+the old leftovers can swallow the new connection: open finding `KF.C01.reusedTupleUnfinishedFlow`. -/
+def reuse (impl : String) : P Verdict := do
+  let kind ← tok; let _ ← nat
+  match impl.splitOn " @@ " with
+  | [a, b] =>
+    pure { modelEq := true, specOk := some (a == b && !(a.splitOn "PANIC").length > 1),
+           kf := ["KF.C01.reusedTupleUnfinishedFlow"], tag := s!"reuse:{kind}:{if a == b then "same" else "differs"}",
+           model := "-", spec := "same as on a fresh instance" }
+  | _ => pure { modelEq := false, specOk := some false, kf := [], tag := "reuse:bad-output", model := "-", spec := "-" }
+
 def http (impl : String) : P Verdict := do
   let b ← bytes; let _ ← nat
   let kind := if b.take 4 == [80, 82, 73, 32] then "h2" else if b.take 5 == [72, 84, 84, 80, 47] then "resp" else "other"
@@ -38,6 +52,6 @@ def db (impl : String) : P Verdict := do
   pure (ok "db" impl)
 
 def handlers : List (String × (String → P Verdict)) :=
-  [("C01.frame", frame), ("C01.pool", pool), ("C01.tlsreader", tlsreader), ("C01.tlsflow", tlsflow), ("C01.http", http), ("C01.db", db)]
+  [("C01.frame", frame), ("C01.pool", pool), ("C01.tlsreader", tlsreader), ("C01.tlsflow", tlsflow), ("C01.reuse", reuse), ("C01.http", http), ("C01.db", db)]
 
 end Huginn.Drv.C01
